@@ -120,6 +120,13 @@ def gen_c15(rng, n, thorough=False):
         steps.append(req(1, req_read(3, 0, 1), 1))
         steps.append({"op": "shutdown"})
         scs.append(scenario(len(scs), steps, max_sessions=maxs, tag=f"c15-burst-close{nclose}"))
+    # a peer that never reads its replies blocks its own session in the write; a burst of decode-level changes,
+    # requests on other connections, new connections and the shutdown must still be served
+    for burst in ((0, 3, 9, 12, 20) if thorough else (3, 12)):
+        steps = [conn(0), conn(1, "127.0.0.2"), req(1, req_read(3, 0, 2), 1), {"op": "flood", "c": 0, "unit": 1}]
+        steps += [{"op": "decode", "level": [1, 1, 1]}] * burst
+        steps += [req(1, req_read(3, 0, 2), 1), conn(2, "127.1.2.3"), req(2, req_wsr(1, 9), 1), {"op": rng.choice(["shutdown", "drop"])}, conn(5)]
+        scs.append(scenario(len(scs), steps, max_sessions=4, tag=f"c15-blocked-writer-decode-burst{burst}"))
     # the limit itself: max+2 connections in a row, the oldest leaves each time
     for maxs in (0, 1, 2, 3):
         steps = []
